@@ -57,7 +57,9 @@ InRangeSeen(i, cfg, q) ==
     \* with the hint (negative self-test): segment 0 is treated as open to the left while it is the hinted one
     IF Hint /\ hint[i] = 1 THEN IsFin(q) /\ NLe(q, cfg.x[Len(cfg.x)]) ELSE InRange(cfg.x, q)
 
-ReplyOf(i, cfg, qs) ==
+\* buf: "none" (allocating entry point), "ok" (correctly shaped caller buffer), "bad" (wrong shape: documented panic)
+ReplyOf(i, cfg, qs, buf) ==
+    IF buf = "bad" THEN [out |-> "Panic", shape |-> <<>>, vals |-> <<>>] ELSE
     LET ex == cfg.st.ex = 1
         ok(q) == IF ex THEN IsFin(q) ELSE InRangeSeen(i, cfg, q)
     IN  IF \A k \in 1..Len(qs) : ok(qs[k])
@@ -66,10 +68,10 @@ ReplyOf(i, cfg, qs) ==
         ELSE IF \E k \in 1..Len(qs) : ~IsFin(qs[k]) /\ ex THEN [out |-> "Unspecified", shape |-> <<>>, vals |-> <<>>]
         ELSE [out |-> "Err:OutOfBounds", shape |-> <<>>, vals |-> <<>>]
 
-Call(t, i, qs) ==
+Call(t, i, qs, buf) ==
     /\ ~pend[t].busy /\ ncalls < MaxCalls
     /\ objs[i].phase = "interp"
-    /\ pend' = [pend EXCEPT ![t] = [busy |-> TRUE, id |-> i, qs |-> qs]]
+    /\ pend' = [pend EXCEPT ![t] = [busy |-> TRUE, id |-> i, qs |-> qs, buf |-> buf]]
     /\ ncalls' = ncalls + 1
     /\ UNCHANGED <<objs, hist, hint>>
 
@@ -77,16 +79,16 @@ Return(t) ==
     /\ pend[t].busy
     /\ LET i == pend[t].id
            cfg == objs[i].cfg
-           r == ReplyOf(i, cfg, pend[t].qs)
+           r == ReplyOf(i, cfg, pend[t].qs, pend[t].buf)
            lastq == pend[t].qs[Len(pend[t].qs)]
-       IN  /\ hist' = hist \cup {<<i, pend[t].qs, r>>}
+       IN  /\ hist' = hist \cup {<<i, pend[t].qs, r, pend[t].buf>>}
            /\ hint' = IF Hint /\ r.out = "Ok" /\ ~IsNaN(lastq) THEN [hint EXCEPT ![i] = Bracket(cfg.x, lastq)] ELSE hint
     /\ pend' = [pend EXCEPT ![t] = [busy |-> FALSE]]
     /\ UNCHANGED <<objs, ncalls>>
 
 Next ==
     \/ \E i \in Ids, x \in Axes, st \in Strats : Build(i, x, st)
-    \/ \E t \in Threads, i \in Ids, qs \in QLists : Call(t, i, qs)
+    \/ \E t \in Threads, i \in Ids, qs \in QLists, buf \in {"none", "ok", "bad"} : Call(t, i, qs, buf)
     \/ \E t \in Threads : Return(t)
 Spec == Init /\ [][Next]_vars
 
@@ -98,18 +100,20 @@ OnlyValidBuilt == \A i \in Ids : /\ (objs[i].phase = "interp" => Valid1(objs[i].
                                  /\ (objs[i].phase = "failed" => objs[i].kinds # {})
 \* C17 / C09: same interpolator, same question => same answer, whatever the history, thread or batch
 SameQuestionSameAnswer ==
-    \A a, b \in hist : a[1] = b[1] /\ a[2] = b[2] => a[3] = b[3]
+    \A a, b \in hist : a[1] = b[1] /\ a[2] = b[2] /\ a[4] # "bad" /\ b[4] # "bad" => a[3] = b[3]
+\* C14: a wrongly shaped buffer never produces Ok, and the *_into variant answers like the allocating one
+BadBufferNeverOk == \A h \in hist : h[4] = "bad" => h[3].out # "Ok"
 ElementsAgree ==
     \A a, b \in hist : a[1] = b[1] /\ a[3].out = "Ok" /\ b[3].out = "Ok" =>
         \A i \in 1..Len(a[2]), j \in 1..Len(b[2]) : a[2][i] = b[2][j] => a[3].vals[i] = b[3].vals[j]
 \* C05: without extrapolation a query is answered iff every element lies in the closed range
 AnsweredIffInRange ==
     \A h \in hist : LET cfg == objs[h[1]].cfg IN
-        cfg.st.ex = 0 => ((h[3].out = "Ok") <=> \A k \in 1..Len(h[2]) : InRange(cfg.x, h[2][k]))
+        cfg.st.ex = 0 /\ h[4] # "bad" => ((h[3].out = "Ok") <=> \A k \in 1..Len(h[2]) : InRange(cfg.x, h[2][k]))
 \* C06: with extrapolation no finite query is rejected
 FiniteNeverRejected ==
     \A h \in hist : LET cfg == objs[h[1]].cfg IN
-        cfg.st.ex = 1 /\ (\A k \in 1..Len(h[2]) : IsFin(h[2][k])) => h[3].out = "Ok"
+        cfg.st.ex = 1 /\ h[4] # "bad" /\ (\A k \in 1..Len(h[2]) : IsFin(h[2][k])) => h[3].out = "Ok"
 \* C09: result shape = query shape ++ trailing data dims
 ShapeOk == \A h \in hist : h[3].out = "Ok" => h[3].shape = <<Len(h[2])>>
 =============================================================================
